@@ -65,6 +65,10 @@ type timestampOracle struct {
 	tsoMux *tsoObject
 	// last timestamp window stored in etcd
 	lastSavedTime atomic.Value // stored as time.Time
+	// saveMu serializes the sections that read lastSavedTime, decide whether the
+	// time window has to be extended and save it, so that a save decided against an
+	// older lastSavedTime can never overwrite a larger window with a smaller one.
+	saveMu sync.Mutex
 	suffix        int
 	dcLocation    string
 }
@@ -193,8 +197,10 @@ func (t *timestampOracle) SyncTimestamp(leadership *election.Leadership) error {
 		time.Sleep(time.Second)
 	})
 
+	t.saveMu.Lock()
 	last, err := t.loadTimestamp()
 	if err != nil {
+		t.saveMu.Unlock()
 		return err
 	}
 
@@ -213,7 +219,9 @@ func (t *timestampOracle) SyncTimestamp(leadership *election.Leadership) error {
 	}
 
 	save := next.Add(t.saveInterval)
-	if err = t.saveTimestamp(leadership, save); err != nil {
+	err = t.saveTimestamp(leadership, save)
+	t.saveMu.Unlock()
+	if err != nil {
 		tsoCounter.WithLabelValues("err_save_sync_ts", t.dcLocation).Inc()
 		return err
 	}
@@ -272,13 +280,16 @@ func (t *timestampOracle) resetUserTimestamp(leadership *election.Leadership, ts
 		return errs.ErrResetUserTimestamp.FastGenByArgs("the specified ts is too larger than now")
 	}
 	// save into etcd only if nextPhysical is close to lastSavedTime
+	t.saveMu.Lock()
 	if typeutil.SubRealTimeByWallClock(t.lastSavedTime.Load().(time.Time), nextPhysical) <= UpdateTimestampGuard {
 		save := nextPhysical.Add(t.saveInterval)
 		if err := t.saveTimestamp(leadership, save); err != nil {
+			t.saveMu.Unlock()
 			tsoCounter.WithLabelValues("err_save_reset_ts", t.dcLocation).Inc()
 			return err
 		}
 	}
+	t.saveMu.Unlock()
 	// save into memory only if nextPhysical or nextLogical is greater.
 	t.tsoMux.physical = nextPhysical
 	t.tsoMux.logical = int64(nextLogical)
@@ -344,13 +355,16 @@ func (t *timestampOracle) UpdateTimestamp(leadership *election.Leadership) error
 
 	// It is not safe to increase the physical time to `next`.
 	// The time window needs to be updated and saved to etcd.
+	t.saveMu.Lock()
 	if typeutil.SubRealTimeByWallClock(t.lastSavedTime.Load().(time.Time), next) <= UpdateTimestampGuard {
 		save := next.Add(t.saveInterval)
 		if err := t.saveTimestamp(leadership, save); err != nil {
+			t.saveMu.Unlock()
 			tsoCounter.WithLabelValues("err_save_update_ts", t.dcLocation).Inc()
 			return err
 		}
 	}
+	t.saveMu.Unlock()
 	// save into memory
 	t.setTSOPhysical(next, false)
 
